@@ -6,4 +6,5 @@ def main : IO UInt32 :=
   runDriver (fun family params lines =>
     match family with
     | "c06" => C06.check params lines
+    | "c06loop" => C06.checkLoop params lines
     | _ => { bad := [s!"unknown family {family}"] })
